@@ -309,6 +309,9 @@ nd::harnesses! {
                 1 => {
                     let o = b.into_opaque();
                     assert!(drops() == 0);
+                    // converting an already opaque value again is the identity: nothing is destroyed by it
+                    let o = if nd::any() { o.into_opaque() } else { o };
+                    assert!(drops() == 0 && live() == 1);
                     drop(o);
                 }
                 2 => {
